@@ -654,13 +654,28 @@ class AtLeast(puan.Proposition):
             # than full len of propositions, then this
             # is a mixed of both
             if len(compounds) < len(self.propositions):
-                compounds.append(
-                    AtLeast(
-                        value=self.value,
-                        propositions=atoms,
-                        sign=self.sign,
+                if self.value == 1 and all(map(lambda x: x.bounds.lower >= 0, atoms)):
+                    # "at least one of atoms and compounds": the atoms may be
+                    # grouped into one "at least one of atoms" proposition
+                    compounds.append(
+                        AtLeast(
+                            value=self.value,
+                            propositions=atoms,
+                            sign=self.sign,
+                        )
                     )
-                )
+                elif all(map(lambda x: x.bounds.as_tuple() == (0,1), atoms)):
+                    # each boolean atom is wrapped into its own proposition
+                    # such that it can be negated individually
+                    compounds.extend(
+                        map(
+                            lambda x: AtLeast(value=1, propositions=[x], sign=puan.Sign.POSITIVE),
+                            atoms,
+                        )
+                    )
+                else:
+                    # negation cannot be moved inwards over integer atoms
+                    return negated
 
             negated.propositions = list(
                 map(
